@@ -60,6 +60,22 @@ def minimise(pool, job_fn, args, result, sig, sigs_of, budget=40, timeout=600, l
                 best_a, best_r = cand, r
                 notes.append('dropped fault %s/%s' % (rk, b))
 
+    # 1b. compound slow-statement faults: does one of the lines alone suffice?
+    for rk, d in list((best_a.get('plan') or {}).items()):
+        for b, ent in list(d.items()):
+            if ent and ent[0] == 'lines' and len(ent[1]) > 1:
+                for L, occ in ent[1]:
+                    if used >= budget:
+                        break
+                    cand = copy.deepcopy(best_a)
+                    cand['plan'][rk][b] = ['line', L, occ]
+                    r, = _run(pool, job_fn, [cand], timeout)
+                    used += 1
+                    if ok(cand, r):
+                        best_a, best_r = cand, r
+                        notes.append('fault %s/%s reduced to the single line %s' % (rk, b, L))
+                        break
+
     # 2. canonical schedules
     if best_a.get('P', 1) > 1 and used < budget:
         cands = []
